@@ -60,6 +60,9 @@ type WCase struct {
 	FailEp    int      `json:"failep"`
 	Partial   bool     `json:"partial"`   // the failing call accepts half of its bytes
 	ErrKind   string   `json:"errkind"`   // what the destination's error looks like (errKinds)
+	Soak      int      `json:"soak"`      // before the ops: this many streams that end in a destination failure, each followed by Reset
+	SoakPat   int      `json:"soakpat"`   // what a failed stream looks like (0..3) ...
+	SoakAt    int      `json:"soakat"`    // ... and at which destination call it fails
 	Shadow    []Op     `json:"shadow"`    // a second, fresh Writer of the same setting runs these on the last epoch's data
 	Cmp       string   `json:"cmp"`       // "C09" | "C12": compare the bytes of the two Writers
 	Arch      int      `json:"arch"`      // acceleration level this case is meant to run at (filled by the driver)
@@ -237,6 +240,61 @@ func runWriterOps(c *WCase, ops []Op, startEpoch int, failing bool, emit func(WE
 	if cerr != nil {
 		return sink, cerr
 	}
+	if failing && startEpoch == 0 && c.Soak > 0 {
+		// a pooled Writer's life: many streams that die with their destination, each followed by
+		// Reset; whatever a failed stream leaves behind must not add up
+		ev := WEvent{Ev: "Soak", Case: c.ID, N: c.Soak}
+		junk := DataSpec{Class: "text", Seed: 4242, Len: 200000}.Bytes()
+		func() {
+			defer func() {
+				if x := recover(); x != nil {
+					ev.Panic = panicString(x)
+				}
+			}()
+			for i := 0; i < c.Soak; i++ {
+				fs := &Sink{FailAt: maxInt(1, c.SoakAt)}
+				u.reset(fs)
+				var errs []error
+				call := func(e error) { errs = append(errs, e) }
+				switch c.SoakPat % 4 {
+				case 0:
+					_, e := u.w.Write(junk[i%1000 : i%1000+300])
+					call(e)
+					call(u.w.Flush())
+				case 1:
+					_, e := u.w.Write(junk[:capOf(c.Set)+5000])
+					call(e)
+					call(u.w.Flush())
+				case 2:
+					_, e := u.w.Write(junk[i%1000 : i%1000+300])
+					call(e)
+					call(u.w.Close())
+				default:
+					_, e := u.w.Write(junk[:9000])
+					call(e)
+					call(u.w.Flush())
+					_, e = u.w.Write(junk[9000:12000])
+					call(e)
+					call(u.w.Flush())
+				}
+				if fs.Failed {
+					seen := false
+					for _, e := range errs {
+						if e == fs.Err {
+							seen = true
+						}
+					}
+					if !seen || fs.After > 0 {
+						ev.Ret++ // the failure was not reported, or the destination was called again
+					}
+				}
+			}
+			u.reset(sink)
+		}()
+		if emit != nil {
+			emit(ev)
+		}
+	}
 	for _, op := range ops {
 		if op.Op == "R" {
 			epoch++
@@ -334,7 +392,11 @@ func execWriterCase(c *WCase, arch int, emit func(interface{})) {
 	if c.Data.Class == "period" {
 		period = c.Data.Period
 	}
-	emit(WEvent{Ev: "Begin", Case: c.ID, Kind: c.Set.Kind, Impl: c.Set.Impl, Level: c.Set.Level,
+	kind := c.Set.Kind
+	if kind == "gzip" && !hdrEncodable(c.Set.Hdr) {
+		kind = "gzip-unencodable-header" // (WriterContract.BadHdr)
+	}
+	emit(WEvent{Ev: "Begin", Case: c.ID, Kind: kind, Impl: c.Set.Impl, Level: c.Set.Level,
 		Window: c.Set.Window, Accel: c.Set.accel(), Period: period, Arch: arch})
 	if c.Mech && c.Set.Impl == "fastgo" {
 		// mechanism events of the level 1/2 compressor, interleaved with the API events
@@ -409,4 +471,37 @@ func execCtorCase(c *WCase, emit func(interface{})) {
 		}()
 		emit(ev)
 	}
+}
+
+// hdrEncodable: can RFC 1952 express these header fields (compress/gzip's rules)?
+func hdrEncodable(h *GzHeader) bool {
+	if h == nil {
+		return true
+	}
+	if len(h.Extra) > 0xffff {
+		return false
+	}
+	for _, s := range []string{h.Name, h.Comment} {
+		for _, r := range s {
+			if r == 0 || r > 0xff {
+				return false
+			}
+		}
+	}
+	return true
+}
+
+// badHeaders: header values that cannot be encoded.
+func badHeader(i int) *GzHeader {
+	switch i % 5 {
+	case 0:
+		return &GzHeader{Extra: make([]byte, 65536), OS: 255}
+	case 1:
+		return &GzHeader{Name: "a\x00b", OS: 255}
+	case 2:
+		return &GzHeader{Comment: "snow \u2603", OS: 255}
+	case 3:
+		return &GzHeader{Name: "ok", Comment: "nul at the end\x00", Extra: []byte{1, 2, 3}, OS: 255}
+	}
+	return &GzHeader{Name: "caf\u00e9", Comment: "\u0100", OS: 255}
 }
